@@ -615,3 +615,18 @@ Proof.
   - destruct (fold_min_in r a) as [E|I]; [rewrite E; now left|now right].
   - intros u [<-|I]; [exact H1|exact (H2 u I)].
 Qed.
+
+(* ------------------------------------------------------------------ fetch deadline *)
+Lemma client_allowance_spec s t u :
+  (0 < t -> client_allowance_ms s t u = t * 1000 + 5000)%Z /\
+  (fetch_timeout_ms s t u + 5000 <= client_allowance_ms s t u)%Z /\ (6000 <= client_allowance_ms s t u)%Z.
+Proof.
+  unfold client_allowance_ms, fetch_timeout_ms. split; [|split; [lia|]].
+  - intros H. apply Z.ltb_lt in H. rewrite H. reflexivity.
+  - destruct (0 <? t)%Z eqn:T; [apply Z.ltb_lt in T; lia|].
+    match goal with |- context [if (0 <? ?d)%Z then _ else _] => destruct (0 <? d)%Z eqn:D end; [|lia].
+    apply Z.ltb_lt in D.
+    match type of D with (0 < ?d)%Z => assert (1000 <= d)%Z end.
+    { destruct (0 <? s)%Z eqn:S; [apply Z.ltb_lt in S; lia|]. destruct u as [u|]; lia. }
+    match goal with |- (_ <= ?d + ?d / 2 + _)%Z => assert (0 <= d / 2)%Z by (apply Z.div_pos; lia) end. lia.
+Qed.
